@@ -299,7 +299,6 @@ func (e *engine) run(t *target, light bool) {
 	if t == nil || len(t.calls) == 0 {
 		return
 	}
-	t0 := time.Now()
 	e.o.Case()
 	if t.cost <= 1 && !light {
 		e.selfCheck(t)
@@ -315,5 +314,4 @@ func (e *engine) run(t *target, light bool) {
 	}
 	e.o.Count("targets/" + t.class)
 	e.o.Count("targets-by-source/" + strings.SplitN(t.id, ":", 2)[0])
-	e.classT[t.class] += time.Since(t0)
 }
